@@ -79,7 +79,10 @@ def seipd_decrypt(cname):
         from specs import indep
         alg = SymmetricKeyAlgorithm(algid)
         ccls, klen, _ = indep.CIPHERS[algid]
+        # data lengths that put the hashed octets - and, second list, the whole ciphertext (prefix + data + 22) - on and next to multiples of
+        # the sizes an implementation may work in (cipher block, page, 64 KiB chunk)
         lens = [0, 1, bs, 64, 100] + [m * k - (bs + 2) + d for m in (64, 4096, 65536) for k in (1, 2) for d in (-1, 0, 1)] + \
+               [m * k - (bs + 2) - 22 + d for m in (64, 4096, 65536) for k in (1, 2) for d in (-1, 0, 1)] + \
                [rng.randrange(0, 5000) for _ in range(max(4, n // 50))]
         viol, cases = [], 0
         for ln in lens:
